@@ -638,7 +638,7 @@ def table_digests(ctx, trace):
     if _sh.which("taskset"):
         ncpu = os.cpu_count() or 1
         for n in [c for c in (1, 3, 5, 6, 7, 12) if c < ncpu]:
-            rc, o, dt = sh(["taskset", "-c", "0-%d" % (n - 1), BIN, "prims", "--family", "tabledig", "--out", tmp, "--seed", str(ctx.seed), "--base", base], cwd=VERIF, timeout=600)
+            rc, o, dt = sh(["taskset", "-c", "0-%d" % (n - 1), BIN, "prims", "--family", "tabledig", "--out", tmp, "--seed", str(ctx.seed), "--base", base], cwd=VERIF, timeout=600, env={"RUST_MIN_STACK": str(64 << 20)})
             if rc != 0:
                 raise ToolError("tabledig under taskset failed rc=%d: %s" % (rc, o[-500:]))
             lines.append(open(tmp).read().strip())
